@@ -681,3 +681,63 @@ func derefLocal(p *Prog, fn *FuncInfo, x ast.Expr, use ast.Node) ast.Expr {
 	}
 	return x
 }
+
+// derefString prints x with every identifier that names a local variable defined exactly once
+// (by an expression, never re-assigned or address-taken) replaced by that expression, to depth 3:
+// `podInfo.PodUID` with `podInfo := rec.PodInfo` prints as `rec.PodInfo.PodUID`.
+func derefString(fn *FuncInfo, x ast.Expr) string {
+	info := fn.Info()
+	var rw func(x ast.Expr, depth int) ast.Expr
+	rw = func(x ast.Expr, depth int) ast.Expr {
+		switch t := x.(type) {
+		case *ast.Ident:
+			if depth >= 3 {
+				return t
+			}
+			v, ok := info.Uses[t].(*types.Var)
+			if !ok || v.IsField() || v.Parent() == nil || v.Pkg() == nil || v.Parent() == v.Pkg().Scope() {
+				return t
+			}
+			ds := varDefs(fn, v)
+			if len(ds) != 1 || ds[0].rhs == nil {
+				return t
+			}
+			switch ast.Unparen(ds[0].rhs).(type) {
+			case *ast.Ident, *ast.SelectorExpr, *ast.IndexExpr, *ast.StarExpr:
+				return &ast.ParenExpr{X: rw(ds[0].rhs, depth+1)}
+			}
+			return t
+		case *ast.SelectorExpr:
+			nx := rw(t.X, depth)
+			if pe, ok := nx.(*ast.ParenExpr); ok {
+				switch pe.X.(type) {
+				case *ast.Ident, *ast.SelectorExpr:
+					nx = pe.X
+				}
+			}
+			return &ast.SelectorExpr{X: nx, Sel: t.Sel}
+		case *ast.ParenExpr:
+			return &ast.ParenExpr{X: rw(t.X, depth)}
+		case *ast.StarExpr:
+			return &ast.StarExpr{X: rw(t.X, depth)}
+		case *ast.UnaryExpr:
+			return &ast.UnaryExpr{Op: t.Op, X: rw(t.X, depth)}
+		case *ast.BinaryExpr:
+			return &ast.BinaryExpr{X: rw(t.X, depth), Op: t.Op, Y: rw(t.Y, depth)}
+		case *ast.IndexExpr:
+			return &ast.IndexExpr{X: rw(t.X, depth), Index: rw(t.Index, depth)}
+		case *ast.CallExpr:
+			args := make([]ast.Expr, len(t.Args))
+			for i, a := range t.Args {
+				args[i] = rw(a, depth)
+			}
+			return &ast.CallExpr{Fun: t.Fun, Args: args, Ellipsis: t.Ellipsis}
+		}
+		return x
+	}
+	out := rw(x, 0)
+	if pe, ok := out.(*ast.ParenExpr); ok {
+		out = pe.X
+	}
+	return exprString(out)
+}
